@@ -20,7 +20,7 @@ import subprocess
 import tempfile
 
 from harness.fw import Check, Driver, VERIF, REPO, ToolFailure
-from harness import javagen, c21diff, dexasm
+from harness import javagen, c21diff, dexasm, c21_jexpr
 from harness.dalvik_interp import Machine
 
 CORPUS = os.path.join(VERIF, "corpus", "C21")
@@ -773,6 +773,7 @@ def run(ck: Check):
         drv = Driver("drv_C21")
         leg_t(ck, drv, workdir)
         leg_t_contexts(ck, drv, workdir, full=not ck.quick, escalated=getattr(ck, "escalated", False))
+        c21_jexpr.leg(ck, drv, 2500 if ck.quick and not getattr(ck, "escalated", False) else 40000)
         leg_s(ck, workdir)
     except javagen.BenchTimeout as e:
         raise ToolFailure("timeout in " + str(e))
